@@ -42,7 +42,7 @@ func c41Receiver(c *Ctx) {
 		v.RequireCallArgs(rule, 1, be+"PutUint32", g, "recv.frame[4:8]", "(recv.streamID & 1048575)")
 		v.RequireCallArgs(rule, 1, be+"PutUint64", g, "recv.frame[8:16]", "recv.seq")
 		n := 0
-		for _, ci := range v.Calls(be + "PutUint16") {
+		for _, ci := range append(v.Calls(be+"PutUint16"), v.callsThroughHelpers(be+"PutUint16")...) {
 			if len(ci.Args) == 3 && ci.Args[1] == "recv.frame[2:4]" {
 				n++
 			}
